@@ -60,6 +60,23 @@ structure Cfg where
   editSyncedBeforeJournalRemoval : Bool := true
   /-- protocol variant for a negative result: `false` = `newManifest` calls `SetMeta` before `Sync` -/
   manifestSyncedBeforeSetMeta : Bool := true
+  /-- D10.  `true` (repaired, commit 5cf4e90): `Transaction.discard` returns before its removal loop while
+      `session.manifestUncertain()` — the last append to the manifest failed, its record may be in the file.
+      `false` (the code as found): the transaction's tables are removed whatever the manifest holds. -/
+  discardKeepsTablesWhenUncertain : Bool := true
+  /-- D26.  `true` (repaired, commit 8a67fea): the error cleanup of `newManifest` asks `GetMeta` and keeps the new
+      manifest when the storage names it as current (`SetMeta` reported an error after it took effect); the
+      commit still fails, `manifestFailed` is set.  `false` (the code as found): the new manifest is removed. -/
+  cleanupChecksCurrent : Bool := true
+  /-- D26, second part.  `true` (commit 98bd5c2): once `SetMeta` has been attempted (`metaTried`) the cleanup keeps the
+      new manifest also when that `GetMeta` fails (`gerr != nil || cur == fd`).  `false` (commit 8a67fea alone): a
+      failing `GetMeta` lets the cleanup fall through to `Remove` — also of the manifest `CURRENT` names. -/
+  cleanupKeepsWhenGetMetaFails : Bool := true
+  /-- D12.  `true` (repaired, commit 1dcbac1): when `GetMeta` says "not exist", `session.recover` refuses the
+      storage as corrupted only if it holds a journal or a table; manifests alone (what a crash inside the creation
+      of the DB leaves) count as "no DB": `Open` creates it.  `false` (the code as found): any file at all makes
+      `Open` fail with "database entry point either missing or corrupted". -/
+  manifestsAloneAreNoDB : Bool := true
 deriving DecidableEq, Repr
 
 /-! ## `session.recover` -/
@@ -210,8 +227,10 @@ def recover (cfg : Cfg) (cmpName : Bytes) (f : StrictFlags) (img : Image) :
     Except ErrClass RecoveredState :=
   let fresh : RecoveredState := ⟨⟨[], 0, 0, 0, 0⟩, [], [], [], 0⟩
   let anyFile := !(img.manifests.isEmpty && img.journals.isEmpty && img.tables.isEmpty)
+  let anyData := !(img.journals.isEmpty && img.tables.isEmpty)
   match img.current with
-  | none => if anyFile then .error .corrupted else .ok fresh       -- `os.ErrNotExist` ⇒ `s.create()`
+  | none =>                                                        -- `os.ErrNotExist` ⇒ `s.create()`
+    if (if cfg.manifestsAloneAreNoDB then anyData else anyFile) then .error .corrupted else .ok fresh
   | some m =>
     match lookup img.manifests m with
     | none => if anyFile then .error .corrupted else .ok fresh
@@ -378,8 +397,9 @@ def RState.entries (r : RState) : List Entry := r.grps.flatMap Grp.ents
 def recoverR (cfg : Cfg) (d : Disk) : Except ErrClass RState :=
   let fresh : RState := ⟨⟨[], 0, 0, 0⟩, [], [], [], 0⟩
   let anyFile := !(d.manifests.isEmpty && d.journals.isEmpty && d.tables.isEmpty)
+  let anyData := !(d.journals.isEmpty && d.tables.isEmpty)
   match d.current with
-  | none => if anyFile then .error .corrupted else .ok fresh
+  | none => if (if cfg.manifestsAloneAreNoDB then anyData else anyFile) then .error .corrupted else .ok fresh
   | some m =>
     match lookup d.manifests m with
     | none => if anyFile then .error .corrupted else .ok fresh
@@ -699,12 +719,16 @@ def stepJob (cfg : Cfg) (s : St) (d : Disk) (j : Job) (rot : Bool) (o : Outcome)
     if o.failed then some (failTo s j .append, d'.apply (.remove .manifest m))
     else some (goto (if cfg.manifestSyncedBeforeSetMeta then .rotSetMeta m else .rotRemove m) s, d')
   | .rotSetMeta m =>
-    -- a `SetMeta` that fails is assumed to have had no effect (see the header of `Props/C08.lean`)
-    if o = .failEffect then none
-    else
-      let d' := d.exec (.setMeta m) o
-      if o.failed then some (failTo s j .append, d'.apply (.remove .manifest m))
-      else some (goto (if cfg.manifestSyncedBeforeSetMeta then .rotRemove m else .rotSync m) s, d')
+    let d' := d.exec (.setMeta m) o
+    if o.failed then
+      -- `SetMeta` reports an error, with (`failEffect`: `CURRENT` names the new manifest now) or without effect.  The
+      -- cleanup of `newManifest` asks `GetMeta` (here `rot` = that `GetMeta` fails as well) and keeps the file if it
+      -- names the new manifest, or fails: `manifestFailed` is set, the commit fails all the same (the repair of D26);
+      -- otherwise (or in the code as found) the file is removed
+      let keep := cfg.cleanupChecksCurrent && (if rot then cfg.cleanupKeepsWhenGetMetaFails else decide (o = .failEffect))
+      if keep then some (failTo { s with manifestFailed := true } j .append, d')
+      else some (failTo s j .append, d'.apply (.remove .manifest m))
+    else some (goto (if cfg.manifestSyncedBeforeSetMeta then .rotRemove m else .rotSync m) s, d')
   | .rotRemove m =>
     -- `recordCommited`; close and remove the old manifest (an error is only logged: the new manifest is in
     -- effect, the repair of D27); adopt the new one
@@ -807,6 +831,21 @@ def stepTr (s : St) : Act → Option St
     | none => none
   | _ => none
 
+/-- `Transaction.Discard` after `Commit` returned an error (or instead of it): the commit job is at its retry
+    point.  The call fails for the client; the sequence numbers stay consumed; the transaction's tables are removed
+    — unless the manifest state is uncertain (`session.manifestUncertain()`, the repair of D10): the record of the
+    failed commit may be in the manifest, the tables are left to the obsolete-file cleanup of the next `Open`. -/
+def trDiscardJob (cfg : Cfg) (s : St) (d : Disk) : Option (St × Disk) :=
+  match s.tr, s.job with
+  | some g, some j =>
+    if j.kind = .tr ∧ j.pc = .append then
+      let keep := cfg.discardKeepsTablesWhenUncertain && s.manifestFailed
+      let d' := if keep then d else j.outs.foldl (fun d o => d.apply (.remove .table o.1)) d
+      some ({ s with tr := none, job := none, seq := max s.seq (g.fin - 1), hi := max s.hi g.fin,
+                     issued := setStatus g .failed s.issued }, d')
+    else none
+  | _, _ => none
+
 /-! ## crash and recovery -/
 
 /-- the process ends: the in-memory state is gone, the ghost history stays -/
@@ -871,8 +910,8 @@ def recStep (s : St) (d : Disk) : Option St :=
 
 /-- A freshly created DB (`session.create` + `openDB` on an empty storage): manifest 1 holds the snapshot
     record of `newManifest(nil, nil)` and the record of the first commit of `recoverJournal`, journal 2 is
-    empty.  The creation itself is not part of the machine: until the first `SetMeta` a crash leaves files
-    without `CURRENT`, which every later `Open` refuses (D12, `C04.d12_creation_window`). -/
+    empty.  The creation itself is `Dur.bigStep` below (`created`, `init0`); `C04.init_is_created`: this state is
+    what `openDB` reaches from `created`. -/
 def init : St × Disk :=
   ({ phase := .running, jcur := 2, stJn := 2, manifestFd := some 1, manifestOpen := true, nextFile := 3 },
    { current := some 1
@@ -896,7 +935,7 @@ def step (cfg : Cfg) (s : St) (d : Disk) : Act → Option (St × Disk)
   | .trBegin => (stepTr s .trBegin).map (·, d)
   | .trPut recs => (stepTr s (.trPut recs)).map (·, d)
   | .trCommit => (stepTr s .trCommit).map (·, d)
-  | .trDiscard => (stepTr s .trDiscard).map (·, d)
+  | .trDiscard => if s.job = none then (stepTr s .trDiscard).map (·, d) else trDiscardJob cfg s d
   | a => stepWriter cfg s d a
 
 /-- run a list of actions; `none` if one of them is not enabled -/
@@ -935,7 +974,7 @@ def Act.noD10 (s : St) : Act → Bool
     | none => true
   | _ => true
 
-/-- **D26 excluded**: `SetMeta` does not fail after it took effect (`Dur.step` has no such step at all) -/
+/-- **D26 excluded**: `SetMeta` does not fail after it took effect -/
 def Act.noD26 (s : St) : Act → Bool
   | .job _ o =>
     match s.job with
@@ -962,6 +1001,19 @@ def Act.jobFaultsOnly (s : St) (a : Act) : Bool := a.writerFaultFree && a.noD10 
     compaction, a transaction commit, a recovery — except the two known findings D10 and D26 -/
 def Act.faultsOK (sd : St × Disk) (a : Act) : Bool := a.noD10 sd.1 && a.noD26 sd.1
 
+/-- `SetMeta` does not report an error after it took effect *while* the `GetMeta` of `newManifest`'s cleanup fails too
+    (with `cleanupKeepsWhenGetMetaFails = false`, commit 8a67fea alone, the cleanup then removes the manifest
+    `CURRENT` names: `C08.setmeta_and_getmeta_fail_lose_current`) -/
+def Act.noGetMetaFault (s : St) : Act → Bool
+  | .job rot o =>
+    match s.job with
+    | some j =>
+      match j.pc with
+      | .rotSetMeta _ => !(o == .failEffect && rot)
+      | _ => true
+    | none => true
+  | _ => true
+
 /-- every action of the run satisfies `P` in the state it is taken in -/
 def allowed (cfg : Cfg) (P : St × Disk → Act → Bool) : St × Disk → List Act → Bool
   | _, [] => true
@@ -976,6 +1028,116 @@ def Allowed (cfg : Cfg) (P : St × Disk → Act → Bool) (sd : St × Disk) (as 
 
 def ReachableFF (cfg : Cfg) (sd : St × Disk) : Prop :=
   ∃ as, (∀ a ∈ as, a.faultFree) ∧ run cfg init as = some sd
+
+/-!
+# part 2b: the creation of the DB in front of the machine
+
+`Open` on a storage without a DB (`session.recover` says "not exist") runs `session.create` = `newManifest(nil, nil)`:
+`Create` of manifest 1, the snapshot record of an empty version, `Sync`, `SetMeta`; then `openDB` goes on with
+`recoverJournal` as on any other storage — that is `Dur.step` from `created` (phase `recovering`, nothing to replay).
+Every one of the four operations can fail (`newManifest`'s cleanup removes the file — unless `SetMeta` took effect,
+`Cfg.cleanupChecksCurrent`), and the machine can crash in between: the next `Open` finds manifest files without
+`CURRENT` and creates the DB again (`Cfg.manifestsAloneAreNoDB`, the repair of D12), truncating manifest 1.
+-/
+
+/-- the snapshot record of `newManifest(nil, nil)` in a new session -/
+def snap0 : MRec := { snapshot := true, jn := some 0, sq := some 0, nf := 2 }
+
+/-- `session.create` has returned inside `openDB`: the session holds manifest 1, nothing to replay -/
+def created : St × Disk :=
+  ({ phase := .recovering, manifestFd := some 1, manifestOpen := true, nextFile := 2, recov := some { todo := [] } },
+   { current := some 1, manifests := [(1, ⟨[snap0], []⟩)] })
+
+/-- where `session.create` is: no process / manifest 1 created / its record written / synced -/
+inductive CPc
+  | idle | made | written | synced
+deriving DecidableEq, Repr
+
+/-- the machine with the creation of the DB in front -/
+inductive Big
+  | creating (pc : CPc) (d : Disk)
+  | db (s : St) (d : Disk)
+
+inductive BAct
+  /-- the next storage operation of `session.create` (at `idle`: `Open` finds no DB and starts with `Create`);
+      `getMetaFails`: the `GetMeta` of `newManifest`'s cleanup fails as well -/
+  | c (o : Outcome) (getMetaFails : Bool)
+  /-- the machine dies during the creation -/
+  | ccrash (ch : CrashChoice)
+  /-- an action of the DB -/
+  | a (a : Act)
+
+def bigStep (cfg : Cfg) : Big → BAct → Option Big
+  | .creating pc d, .c o gm =>
+    let undo (d' : Disk) : Option Big := some (.creating .idle (d'.apply (.remove .manifest 1)))
+    match pc with
+    | .idle =>
+      -- `Open`: `session.recover` must say "not exist" (and not "corrupted")
+      match d.current, recoverR cfg d with
+      | none, .ok _ =>
+        let d' := d.exec (.create .manifest 1) o
+        if o.failed then undo d' else some (.creating .made d')
+      | _, _ => none
+    | .made =>
+      let d' := d.exec (.writeM 1 snap0) o
+      if o.failed then undo d' else some (.creating .written d')
+    | .written =>
+      let d' := d.exec (.sync .manifest 1) o
+      if o.failed then undo d' else some (.creating .synced d')
+    | .synced =>
+      let d' := d.exec (.setMeta 1) o
+      if o.failed then
+        -- `Open` returns the error; the manifest is kept if `GetMeta` names it or fails (the repair of D26)
+        let keep := cfg.cleanupChecksCurrent && (if gm then cfg.cleanupKeepsWhenGetMetaFails else decide (o = .failEffect))
+        if keep then
+          -- with `CURRENT` set the DB exists; without, the file waits for the next `Open` to truncate it
+          if o = .failEffect then some (.db { phase := .crashed } d') else some (.creating .idle d')
+        else undo d'
+      else some (.db created.1 d')
+  | .creating _ d, .ccrash ch => some (.creating .idle (crashWith ch d))
+  | .db s d, .a a => (step cfg s d a).map fun sd => .db sd.1 sd.2
+  | _, _ => none
+
+/-- an empty storage, no process -/
+def init0 : Big := .creating .idle {}
+
+def bigRun (cfg : Cfg) : Big → List BAct → Option Big
+  | b, [] => some b
+  | b, x :: xs =>
+    match bigStep cfg b x with
+    | some b' => bigRun cfg b' xs
+    | none => none
+
+def Big.disk : Big → Disk
+  | .creating _ d => d
+  | .db _ d => d
+
+/-- the history of client calls: empty while the DB is being created -/
+def Big.st : Big → St
+  | .creating _ _ => { phase := .crashed }
+  | .db s _ => s
+
+/-- every action of the run satisfies `P` (on DB actions, in the state they are taken in) and `Q` (on the storage
+    operations of the creation) -/
+def bigAllowed (cfg : Cfg) (P : St × Disk → Act → Bool) (Q : CPc → Outcome → Bool → Bool) : Big → List BAct → Bool
+  | _, [] => true
+  | b, x :: xs =>
+    (match b, x with
+     | .db s d, .a a => P (s, d) a
+     | .creating pc _, .c o gm => Q pc o gm
+     | _, _ => true) &&
+    match bigStep cfg b x with
+    | some b' => bigAllowed cfg P Q b' xs
+    | none => true
+
+/-- no fault in the creation -/
+def CPc.noFault (_ : CPc) (o : Outcome) (_ : Bool) : Bool := o == .ok
+
+/-- every fault in the creation except the `SetMeta`-with-effect + `GetMeta` double fault -/
+def CPc.noGetMetaFault (pc : CPc) (o : Outcome) (gm : Bool) : Bool := !(pc == .synced && o == .failEffect && gm)
+
+/-- … and, for the theorems that exclude D26, no `SetMeta` failing after it took effect -/
+def CPc.noD26 (pc : CPc) (o : Outcome) (_ : Bool) : Bool := !(pc == .synced && o == .failEffect)
 
 /-!
 # part 3: `leveldb.Recover` (`recoverTable` + `openDB`)
